@@ -72,11 +72,27 @@ PROPS: dict[str, dict] = {}
 
 
 def engine_prop(pid, monitors, fields, ops, results=False, quick=960, thorough=24000, profile=None,
-                technique='', note=''):
+                technique='', note='', pre=None):
     if not os.path.exists(os.path.join(fw.LEAN, 'PK', 'Audit', f'{pid}.lean')):
         return      # no theorem yet: not claimed
     PROPS[pid] = dict(kind='engine', monitors=monitors, fields=fields, ops=ops, results=results,
-                      quick=quick, thorough=thorough, profile=profile, technique=technique, note=note)
+                      quick=quick, thorough=thorough, profile=profile, technique=technique, note=note,
+                      pre=pre)
+
+
+def pre_c11():
+    """exhaustive comparison of the live game classes with the Lean model of games.py"""
+    import variants
+    n, diffs = variants.compare_variants()
+    codes = {v.__name__: k for k, v in __import__('gen').VARIANTS.items()}
+    pseudo = []
+    for d in diffs:
+        pseudo.append(dict(case='variants-table', seed=0, at_op=0, line_no=0, expected=str(d['expected']),
+                           actual=str(d['actual']), fields=[('variant_table', str(d['expected']), str(d['actual']))],
+                           script=['case variants-table', f'variants {d["bets"][0]} {d["bets"][1]}'],
+                           meta={'variant': codes.get(d['class'], 'custom'), 'class': d['class'], 'what': d['what']}))
+    return dict(diffs=pseudo, coverage=dict(variant_table_fields=n, variant_table_differences=len(diffs),
+                                            bet_size_pairs=variants.PAIRS, exhaustive=True))
 
 
 engine_prop('C01', ['C01'], CHIP_FIELDS, CHIP_OPS)
@@ -88,6 +104,8 @@ engine_prop('C08', ['C08'], CAN_FIELDS, set(), results=True)
 engine_prop('C09', ['C09'], PHASE_FIELDS | CHIP_FIELDS | CARD_FIELDS, ALL_OPS)
 engine_prop('C10', ['C10'], DEAL_FIELDS, DEAL_OPS)
 engine_prop('C12', ['C12'], SHOW_FIELDS | CHIP_FIELDS, SHOW_OPS)
+engine_prop('C11', ['C11'], {'variant_table', 'min_cbr', 'pot_cbr', 'max_cbr', 'can_cbr', 'cbrCnt', 'cbrAmt'},
+            {'CompletionBettingOrRaisingTo'}, profile={'predefined': True}, pre=pre_c11)
 engine_prop('C13', ['C13'], {'opener', 'actors', 'actor', 'turn', 'bringin', 'completion'}, BET_OPS)
 engine_prop('C14', ['C14'], RUNOUT_FIELDS | {'subpots', 'pots_'}, {'RunoutCountSelection', 'BoardDealing', 'ChipsPushing', 'HoleCardsShowingOrMucking'})
 engine_prop('C15', ['C15'], set(), ALL_OPS)
@@ -119,6 +137,9 @@ def decide_engine(pid, spec, tier, seed, theorems, t0):
             matched.setdefault(k['id'], (k, v))
     hits = [d for d in res['diffs'] if slice_hit(spec, d)]
     other = len(res['diffs']) - len(hits)
+    pre = spec['pre']() if spec.get('pre') else None
+    if pre:
+        hits = pre['diffs'] + hits
     rc = 0
     replay = None
     searched = 0
@@ -169,6 +190,7 @@ def decide_engine(pid, spec, tier, seed, theorems, t0):
                             differences_in_slice=len(hits), differences_elsewhere=other,
                             boosted_search_cases=searched),
         monitor=dict(violations_new=len(fresh), known_findings=sorted(matched)),
+        **({'exhaustive_tables': pre['coverage']} if pre else {}),
         distribution={k: v for k, v in sorted(res['dist'].items())},
         operations={k: v for k, v in sorted(res['stats'].items()) if k.startswith(('ok:', 'err:', 'log:', 'crash:'))},
         samples=res['samples'][:3])
@@ -187,6 +209,7 @@ def replay(pid: str, spec: dict, path: str) -> int:
     import dealing  # noqa: F401
     import opener  # noqa: F401
     import runout  # noqa: F401
+    import variants  # noqa: F401
     d = json.load(open(path))
     if spec['kind'] == 'eval':
         return replay_eval(pid, d)
